@@ -13,5 +13,10 @@ void memVerifReset(void);
 
 void sk_wipe_normalise(void)
 {
+	/* the request is consumed here, by a 1-octet wipe of a static buffer issued from the caller's
+	   own context, so that simulated tasks only ever read the request flag (no write to it from
+	   inside a task that ThreadSanitizer would have to order with the other tasks) */
+	static unsigned char wbuf[16] __attribute__((aligned(16)));
 	memVerifReset();
+	memWipe(wbuf, 1);
 }
